@@ -360,7 +360,7 @@ def check_c17(tier, seed):
     else:
         nthreads, iters, reps = (8, 2000, 3) if tier == 'quick' else (16, 20000, 6)
         for r in range(reps):
-            rc2, o2 = V.sh([exe, str(nthreads), str(iters), str(seed * 10 + r)], timeout=900)
+            rc2, o2 = V.sh([exe, str(nthreads), str(iters), str(seed * 10 + r)], timeout=300 if tier == 'quick' else 1800)
             runs.append((rc2, o2[-5000:]))
     failing = [r for r in runs if r[0] != 0]
     if failing or not build_ok:
